@@ -341,6 +341,23 @@ func (f *File) Close() error {
 	return nil
 }
 
+func (f *File) Chmod(mode os.FileMode) error {
+	if f.pass != nil {
+		return f.pass.Chmod(mode)
+	}
+	return nil
+}
+
+func (f *File) Truncate(size int64) error {
+	if f.pass != nil {
+		return f.pass.Truncate(size)
+	}
+	if f.real != nil {
+		return f.real.Truncate(size)
+	}
+	return &fs.PathError{Op: "truncate", Path: f.name, Err: syscall.EINVAL}
+}
+
 func (f *File) Sync() error {
 	if f.real != nil {
 		return f.real.Sync()
@@ -401,12 +418,43 @@ func Stat(name string) (os.FileInfo, error) {
 	if !active {
 		return os.Stat(name)
 	}
+	if c := findCreated(name); c != nil {
+		if fi, err := os.Stat(c.Real); err == nil {
+			return fileInfo{name: name, size: fi.Size()}, nil
+		}
+	}
 	fsp := lookup(name)
-	if fsp == nil || (fsp.OpenErr != "" && fsp.OpenErr != "EISDIR" && fsp.OpenErr != "EACCES") {
+	if fsp == nil && dirExists(name) {
+		return fileInfo{name: name, dir: true}, nil
+	}
+	if fsp == nil || (fsp.OpenErr != "" && fsp.OpenErr != "EISDIR" && fsp.OpenErr != "EACCES") || (fsp.Data == nil && fsp.OpenErr == "" && !fsp.Pipe) {
 		return nil, &fs.PathError{Op: "stat", Path: name, Err: syscall.ENOENT}
 	}
 	if fsp.Pipe {
 		return fileInfo{name: name, size: 0, pipe: true}, nil
 	}
 	return fileInfo{name: name, size: int64(len(fsp.Data)), dir: fsp.OpenErr == "EISDIR"}, nil
+}
+
+// dirExists: the virtual root, its tmp directory, and every directory that
+// holds a file of the scenario (unless creating there is set up to fail with
+// ENOENT/ENOTDIR) or a file created by this process.
+func dirExists(name string) bool {
+	name = filepath.Clean(name)
+	switch name {
+	case "/", "/sim", "/sim/tmp", ".":
+		return true
+	}
+	prefix := name + "/"
+	for k, f := range step.Files {
+		if len(k) > len(prefix) && k[:len(prefix)] == prefix && f.CreateErr != "ENOENT" && f.CreateErr != "ENOTDIR" {
+			return true
+		}
+	}
+	for _, c := range created {
+		if len(c.Virtual) > len(prefix) && c.Virtual[:len(prefix)] == prefix {
+			return true
+		}
+	}
+	return false
 }
